@@ -181,6 +181,13 @@ def traversal(n):
     if n is None:
         return None
     k = n.get("k")
+    if k == "blk":
+        # a block holding exactly one statement (e.g. an inlined helper whose body is the loop)
+        inner = list(n["b"]["stmts"]) + ([n["b"]["tail"]] if n["b"]["tail"] is not None else [])
+        inner = [x for x in inner if not (x.get("k") == "let" and x.get("init") is not None and x["init"].get("k") in ("local", "lit", "ref"))]
+        if len(inner) == 1:
+            return traversal(inner[0])
+        return None
     if k == "for":
         bf = _base_field(n["iter"])
         if bf:
